@@ -167,6 +167,8 @@ type Heap struct {
 	obj    string     // write: object term whose entry was written ("" = unknown)
 	loopSet *loopFrame // havoc node of a loop header (dry pass): the loop's own frame
 	isLoop bool
+	keepPrivate bool
+	interf bool // write models interference by another goroutine, not a write of this function
 }
 
 type HeapSpace struct {
@@ -174,10 +176,11 @@ type HeapSpace struct {
 	n     int
 	sorts map[string]string // key -> array sort
 	final map[string]bool   // keys never havocked by calls
+	private map[string]bool // keys only their type's writer methods may change
 }
 
 func newHeapSpace(c *Ctx) *HeapSpace {
-	return &HeapSpace{c: c, sorts: map[string]string{}, final: map[string]bool{}}
+	return &HeapSpace{c: c, sorts: map[string]string{}, final: map[string]bool{}, private: map[string]bool{}}
 }
 
 func (hs *HeapSpace) node(kind string) *Heap {
@@ -265,7 +268,7 @@ func (hs *HeapSpace) read(h *Heap, key string) string {
 			cur = cur.parent
 			continue
 		case "havoc":
-			if hs.final[key] {
+			if hs.final[key] || (cur.keepPrivate && hs.private[key]) {
 				cur = cur.parent
 				continue
 			}
